@@ -353,45 +353,62 @@ fn run_demux(lines: &[Value], out: &mut NdjsonOut, shard: (usize, usize), hash_p
 
 // ------------------------------------------------------------------------------------------ bridge
 //
-// A case is `{cfg:{rules:[{m,fix,off,pt}], seq0, off0, pin, strip}, steps:[{src,pt,ts,exp:{...}}]}`; all u32
-// quantities are TLC integers holding the same 32 bits (negative = upper half). The source transport gets
-// the bridge; the target transport owns a real loopback socket whose remote address is the harness's
-// peer socket, where the rewritten datagrams are read back. A sentinel datagram sent through the same
-// target connection after the scenario decides how many packets were forwarded, without any timeout.
+// A case is `{cfg:{rules:[{m,fixOn,fix,off,pt,mid}], fixed, seq0, off0, pinOn, pin, strip, video:[pt..]},
+// steps:[{op:"fwd",src,pt,ts,tgt,exp:{...}} | {op:"reinstall"}]}`; all u32 quantities are TLC integers holding
+// the same 32 bits (negative = upper half). The source transport gets the bridge; each target transport
+// (audio, optional video) owns a real loopback socket whose remote address is one of the harness's peer
+// sockets, where the rewritten datagrams are read back. A sentinel datagram sent through each target
+// connection after the scenario decides how many packets were forwarded, without any timeout.
 
 fn u32_of(v: &Value) -> u32 {
     v.as_i64().unwrap() as u32
 }
 
-struct BridgeWorld {
-    src: RtpTransport,
-    dst: Arc<RtpTransport>,
+struct Target {
+    t: Arc<RtpTransport>,
     peer: tokio::net::UdpSocket,
-    _a: watch::Sender<Option<IceSocketWrapper>>,
-    _b: watch::Sender<Option<IceSocketWrapper>>,
+    _w: watch::Sender<Option<IceSocketWrapper>>,
 }
 
-async fn bridge_world() -> BridgeWorld {
+async fn target() -> Target {
     let peer = tokio::net::UdpSocket::bind("127.0.0.1:0").await.unwrap();
-    let (a, a_rx) = watch::channel(None::<IceSocketWrapper>);
-    let src_conn = IceConn::new(a_rx, "127.0.0.1:9".parse().unwrap(), None);
-    let src = RtpTransport::new(src_conn, false);
-    let dst_sock = tokio::net::UdpSocket::bind("127.0.0.1:0").await.unwrap();
+    let sock = tokio::net::UdpSocket::bind("127.0.0.1:0").await.unwrap();
     // tokio's try_send_to only works once the reactor has reported the socket writable
-    dst_sock.writable().await.unwrap();
-    let (b, b_rx) = watch::channel(Some(IceSocketWrapper::Udp(Arc::new(dst_sock))));
-    let dst_conn = IceConn::new(b_rx, peer.local_addr().unwrap(), None);
-    let dst = Arc::new(RtpTransport::new(dst_conn, false));
-    BridgeWorld { src, dst, peer, _a: a, _b: b }
+    sock.writable().await.unwrap();
+    let (w, rx) = watch::channel(Some(IceSocketWrapper::Udp(Arc::new(sock))));
+    let conn = IceConn::new(rx, peer.local_addr().unwrap(), None);
+    Target { t: Arc::new(RtpTransport::new(conn, false)), peer, _w: w }
 }
 
 const SENTINEL: &[u8] = b"\x00\x00verif-sentinel";
+
+/// Everything that arrived at a target's peer socket before the sentinel sent through that target.
+async fn drain_target(t: &Target) -> Vec<Result<RtpPacket, String>> {
+    t.t.ice_conn().try_send(SENTINEL).expect("TOOL: sentinel send");
+    let mut got = Vec::new();
+    let mut rb = [0u8; 2048];
+    loop {
+        let (len, _) = tokio::time::timeout(std::time::Duration::from_secs(60), t.peer.recv_from(&mut rb))
+            .await
+            .expect("TOOL: sentinel never arrived on loopback")
+            .unwrap();
+        if &rb[..len] == SENTINEL {
+            return got;
+        }
+        got.push(RtpPacket::parse(&rb[..len]).map_err(|e| format!("{e:?}")));
+    }
+}
 
 fn run_bridge(cases: &[Value], out: &mut NdjsonOut, shard: (usize, usize), hash_path: &str) {
     let rt = tokio::runtime::Builder::new_current_thread().enable_all().build().unwrap();
     let mut rng = Rng::from_env();
     let (mut n, mut steps, mut panics, mut drift, mut divs) = (0u64, 0u64, 0u64, 0u64, 0u64);
-    let w = rt.block_on(bridge_world());
+    let (src, ta, tv) = rt.block_on(async {
+        let (a, a_rx) = watch::channel(None::<IceSocketWrapper>);
+        std::mem::forget(a);
+        let src = RtpTransport::new(IceConn::new(a_rx, "127.0.0.1:9".parse().unwrap(), None), false);
+        (src, target().await, target().await)
+    });
     let mid_ext_id: u8 = 3;
     let mut hashes: Vec<u8> = Vec::new();
     for (idx, c) in cases.iter().enumerate() {
@@ -400,11 +417,15 @@ fn run_bridge(cases: &[Value], out: &mut NdjsonOut, shard: (usize, usize), hash_
         }
         n += 1;
         let cfg = &c["cfg"];
+        let st = c["steps"].as_array().unwrap();
+        let is_fwd = |s: &Value| s["op"].as_str().unwrap_or("fwd") == "fwd";
         // non-trivial = some source sends at least two packets (every continuity rule needs a pair)
-        if c["steps"].as_array().unwrap().iter().any(|s| s["exp"]["first"] == json!(false)) {
+        if st.iter().any(|s| is_fwd(s) && s["exp"]["first"] == json!(false)) {
             hashes.extend_from_slice(&fnv64(c.to_string().as_bytes()).to_le_bytes());
         }
         let fixed = cfg["fixed"].as_bool().unwrap(); // initial seq / ts offset given, else random in the code
+        let pin_on = cfg["pinOn"].as_bool().unwrap_or(false);
+        let strip = cfg["strip"].as_bool().unwrap_or(false);
         let rules: Vec<RtpRewriteRule> = cfg["rules"].as_array().unwrap().iter().map(|r| RtpRewriteRule {
             match_payload_type: if r["m"].as_i64().unwrap() < 0 { None } else { Some(r["m"].as_u64().unwrap() as u8) },
             fixed_out_ssrc: if r["fixOn"].as_bool().unwrap() { Some(u32_of(&r["fix"])) } else { None },
@@ -414,49 +435,48 @@ fn run_bridge(cases: &[Value], out: &mut NdjsonOut, shard: (usize, usize), hash_
             sdes_mid: if r["mid"].as_i64().unwrap_or(0) > 0 { Some(format!("m{}", r["mid"])) } else { None },
         }).collect();
         let opts = RtpRewriteBridgeOptions {
-            strip_extensions: cfg["strip"].as_bool().unwrap_or(false),
+            strip_extensions: strip,
             initial_sequence_number: if fixed { Some(cfg["seq0"].as_u64().unwrap() as u16) } else { None },
             initial_timestamp_offset: if fixed { Some(u32_of(&cfg["off0"])) } else { None },
-            initial_output_timestamp: if cfg["pinOn"].as_bool().unwrap_or(false) { Some(u32_of(&cfg["pin"])) } else { None },
+            initial_output_timestamp: if pin_on { Some(u32_of(&cfg["pin"])) } else { None },
         };
-        let st = c["steps"].as_array().unwrap();
-        steps += st.len() as u64;
+        let video: std::collections::HashSet<u8> =
+            cfg["video"].as_array().map(|a| a.iter().map(|p| p.as_u64().unwrap() as u8).collect()).unwrap_or_default();
+        steps += st.iter().filter(|s| is_fwd(s)).count() as u64;
+        let install = || {
+            src.clear_bridge_rewrite();
+            if video.is_empty() {
+                src.bridge_rewrite_rules_to(ta.t.clone(), opts, rules.clone());
+            } else {
+                src.bridge_rewrite_rules_to_with_video(ta.t.clone(), Some(tv.t.clone()), video.clone(), opts, rules.clone());
+            }
+        };
         let res = catch(|| {
             rt.block_on(async {
-                w.src.clear_bridge_rewrite();
-                w.src.bridge_rewrite_rules_to(w.dst.clone(), opts, rules.clone());
+                install();
                 let mut sent = Vec::new();
                 let mut buf = Vec::new();
                 for s in st {
+                    if !is_fwd(s) {
+                        install();
+                        sent.push(None);
+                        continue;
+                    }
                     let mut h = RtpHeader::new(s["pt"].as_u64().unwrap() as u8, rng.next() as u16, u32_of(&s["ts"]), u32_of(&s["src"]));
-                    h.marker = false;
+                    h.marker = rng.below(4) == 0;
                     if rng.below(3) == 0 {
                         h.extension = Some(RtpHeaderExtension::new(0xBEDE, vec![0x10, 0xAA, 0, 0]));
                     }
                     let n = 1 + rng.below(30) as usize;
                     let p = RtpPacket::new(h, rng.bytes(n));
-                    sent.push(p.clone());
-                    w.src.receive(Bytes::from(p.marshal().unwrap()), "127.0.0.1:5000".parse().unwrap(), &mut buf).await;
+                    sent.push(Some(p.clone()));
+                    src.receive(Bytes::from(p.marshal().unwrap()), "127.0.0.1:5000".parse().unwrap(), &mut buf).await;
                 }
-                // sentinel through the same socket pair
-                w.dst.ice_conn().try_send(SENTINEL).expect("sentinel send");
-                let mut got = Vec::new();
-                let mut rb = [0u8; 2048];
-                loop {
-                    let (len, _) = tokio::time::timeout(std::time::Duration::from_secs(30), w.peer.recv_from(&mut rb))
-                        .await
-                        .expect("TOOL: sentinel never arrived on loopback")
-                        .unwrap();
-                    if &rb[..len] == SENTINEL {
-                        break;
-                    }
-                    got.push(RtpPacket::parse(&rb[..len]).map_err(|e| format!("{e:?}")));
-                }
-                (sent, got)
+                (sent, drain_target(&ta).await, drain_target(&tv).await)
             })
         });
-        let (sent, got) = match res {
-            Err(msg) if msg.starts_with("TOOL") || msg.contains("sentinel") => panic!("{msg}"),
+        let (sent, got_a, got_v) = match res {
+            Err(msg) if msg.contains("TOOL") => panic!("{msg}"),
             Err(msg) => {
                 panics += 1;
                 out.push(&json!({"type": "divergence", "case_idx": idx, "rule": "NoPanic", "field": "panic", "observed": msg, "case": c}));
@@ -464,18 +484,37 @@ fn run_bridge(cases: &[Value], out: &mut NdjsonOut, shard: (usize, usize), hash_
             }
             Ok(x) => x,
         };
-        if got.len() != st.len() {
+        let nfwd = st.iter().filter(|s| is_fwd(s)).count();
+        let exp_v = st.iter().filter(|s| is_fwd(s) && s["tgt"].as_u64().unwrap_or(1) == 2).count();
+        if got_a.len() + got_v.len() != nfwd {
+            // a packet the bridge took was not forwarded (or forwarded twice): the output is not the
+            // arrival-ordered consecutive stream
             divs += 1;
-            out.push(&json!({"type": "divergence", "case_idx": idx, "rule": "SeqConsecutive", "field": "count", "step": got.len(),
-                             "observed": got.len(), "allowed": [st.len()], "case": c}));
+            out.push(&json!({"type": "divergence", "case_idx": idx, "rule": "SeqConsecutive", "field": "count",
+                             "observed": got_a.len() + got_v.len(), "allowed": [nfwd], "case": c}));
+            continue;
+        }
+        if got_v.len() != exp_v {
+            // beyond the statement: the target is chosen from the original payload type
+            drift += 1;
+            out.push(&json!({"type": "divergence", "case_idx": idx, "rule": "EXT", "field": "target",
+                             "observed": {"audio": got_a.len(), "video": got_v.len()},
+                             "allowed": [{"audio": nfwd - exp_v, "video": exp_v}], "case": c}));
             continue;
         }
         // per-source constants learnt from the first packet when the initial values are left to the code
         let mut base: std::collections::HashMap<u32, (u16, u32)> = Default::default();
         let mut case_drift = false;
+        let (mut ia, mut iv) = (0usize, 0usize);
         for (k, s) in st.iter().enumerate() {
+            if !is_fwd(s) {
+                base.clear();
+                continue;
+            }
             let e = &s["exp"];
-            let g = match &got[k] {
+            let to_v = s["tgt"].as_u64().unwrap_or(1) == 2;
+            let gr = if to_v { iv += 1; &got_v[iv - 1] } else { ia += 1; &got_a[ia - 1] };
+            let g = match gr {
                 Ok(p) => p,
                 Err(er) => {
                     divs += 1;
@@ -484,10 +523,11 @@ fn run_bridge(cases: &[Value], out: &mut NdjsonOut, shard: (usize, usize), hash_
                     break;
                 }
             };
-            let src = u32_of(&s["src"]);
+            let sp = sent[k].as_ref().unwrap();
+            let src_ssrc = u32_of(&s["src"]);
             let (mut eseq, mut ets) = (e["seq"].as_u64().unwrap() as u16, u32_of(&e["ts"]));
             if !fixed {
-                let b = *base.entry(src).or_insert((g.header.sequence_number.wrapping_sub(eseq), g.header.timestamp.wrapping_sub(ets)));
+                let b = *base.entry(src_ssrc).or_insert((g.header.sequence_number.wrapping_sub(eseq), g.header.timestamp.wrapping_sub(ets)));
                 eseq = eseq.wrapping_add(b.0);
                 ets = ets.wrapping_add(b.1);
             }
@@ -520,12 +560,11 @@ fn run_bridge(cases: &[Value], out: &mut NdjsonOut, shard: (usize, usize), hash_
                 break;
             }
             // beyond the listed property: payload untouched, marker kept, MID stamped / extensions stripped
-            let strip = cfg["strip"].as_bool().unwrap_or(false);
             let mid_exp = e["mid"].as_i64().unwrap_or(0);
             let mid_obs = g.header.get_extension(mid_ext_id).map(|b| String::from_utf8_lossy(&b).to_string());
-            let ext_ok = g.payload == sent[k].payload
-                && g.header.marker == (sent[k].header.marker || (first && cfg["pinOn"].as_bool().unwrap_or(false)))
-                && (if strip { g.header.extension.is_none() } else if mid_exp > 0 { mid_obs == Some(format!("m{mid_exp}")) } else { g.header.extension == sent[k].header.extension });
+            let ext_ok = g.payload == sp.payload
+                && g.header.marker == (sp.header.marker || (first && pin_on))
+                && (if strip { g.header.extension.is_none() } else if mid_exp > 0 { mid_obs == Some(format!("m{mid_exp}")) } else { g.header.extension == sp.header.extension });
             if !ext_ok {
                 case_drift = true;
                 bad("EXT", "payload/marker/extension", json!("unchanged payload, marker; MID per rule"), json!({"marker": g.header.marker, "mid": mid_obs}));
